@@ -115,6 +115,17 @@ func (p *polling) onPollRequest(ctx *types.HttpContext) {
 			},
 		})
 	}
+
+	// the transport closed while this poll was being accepted: nobody is left to
+	// answer it, so release it right away
+	if p.Writable() && p.ReadyState() == "closed" {
+		polling_log.Debug("transport already closed - releasing the poll")
+		p.Send([]*packet.Packet{
+			{
+				Type: packet.CLOSE,
+			},
+		})
+	}
 }
 
 // The client sends a request with data.
